@@ -172,6 +172,13 @@ def run(ctx):
     # ---------------------------------------------------------------- R4 frame balance
     check_balance(ctx, RS)
     check_entry_beliefs(ctx, RS)
+    # the predicate that routes an object to the remote reducer answers from a cache: it must be keyed by the class itself (shared with C13.R4)
+    from .c13 import check_cache_key
+    M = P.cls('SupportRemoteGetStateMeta')
+    chk = [f for n, f in M.methods.items() if 'check_type' in n]
+    if chk:
+        ctx.used(chk[0])
+        check_cache_key(ctx, chk[0], 'R1')
 
 REWRAP = ('OrderedDict', 'collections.OrderedDict', 'dict')
 MUTATORS = ('pop', 'popitem', 'clear', 'update', 'setdefault', 'move_to_end', '__setitem__', '__delitem__', 'append', 'extend', 'remove', 'insert', 'sort', 'reverse')
